@@ -40,7 +40,11 @@ class State:
 
     def assume(self, *conds):
         for c in conds:
-            if c is None or z3.is_true(c):
+            if c is None or c is True:
+                continue
+            if c is False:
+                c = z3.BoolVal(False)
+            if z3.is_true(c):
                 continue
             self.pc.append(c)
             self.known.add(c.get_id())
